@@ -127,7 +127,7 @@ static void h_run_ff_case (const h_case_t *c) {
       h_arg_vals_buf[i].u = H_BLK_BASE + H_BLK_STRIDE * i;
       for (unsigned k = 0; k < H_BLK_STRIDE / 8; k++) h_blk[i][k] = nd ();
     } else if (t == SC_LD) {
-      h_arg_ld[i] = h_ld_of_bits (nd (), nd ());
+      h_arg_ld[i] = h_ld_nd ();
       h_arg_vals_buf[i].ld = h_arg_ld[i];
     }
     h_arg_raw[i] = h_arg_vals_buf[i].u;
